@@ -8,7 +8,7 @@ WS = [0x20, 0x09, 0x0a, 0x0b, 0x0c, 0x0d, 0x85, 0xa0, 0x1680, 0x2000, 0x2003, 0x
 MARKS = [0x301, 0x308, 0xff9e, 0x200d, 0x0d4e, 0x0600, 0x0903, 0x20e3, 0xfe0f]
 ASTRAL = [0x10000, 0x1f4a9, 0x1f1e9, 0x1f1ea, 0xfffff, 0x100000, 0x10ffff, 0x1d7ce]
 BOUND = [0x7f, 0x80, 0xe9, 0x100, 0x7ff, 0x800, 0xfff, 0x1000, 0xd7ff, 0xe000, 0xffff]
-CASED = [ord(c) for c in "aAbBzZiI"] + [0x130, 0x307, 0x131, 0x1e9e, 0xdf, 0x3a3, 0x3c3, 0x3c2, 0x212a, 0x13a0, 0xab70, 0x1c4, 0x1c5, 0x1c6]
+CASED = [ord(c) for c in "aAbBzZiI"] + [0x130, 0x307, 0x131, 0x1e9e, 0xdf, 0x212b, 0x2126, 0x3a3, 0x3c3, 0x3c2, 0x212a, 0x13a0, 0xab70, 0x1c4, 0x1c5, 0x1c6]
 DIGITS = [ord(c) for c in "0129"] + [0x660, 0x0967, 0xff11, 0xb2, 0x2460]
 WORDY = [ord('_'), 0x5d0, 0x4e2d, 0x1100, 0x1161, 0x11a8]
 SGR = [0x1b, ord('['), ord('m'), ord(';'), ord('0'), ord('1'), ord('3')]
@@ -19,7 +19,7 @@ ALPHABETS = [
     ("bound", BOUND + [97]), ("cased", CASED), ("digits", DIGITS + [97, 45]), ("wordy", WORDY + [97, 32, 49]),
     ("sgr", SGR + [97]), ("mixed", [97, 98, 49, 50, 32, 46, 0x5c, 0xe9, 0x1f4a9, 0x301, 95]),
     ("a-h", list(range(97, 105))),
-    ("caret", [0x5e, 0x5f, 0x60, 97, 98, 0x7e, 0x7c]), ("dollar", [0x24, 0x25, 0x26, 0x23, 0x5d, 0x5b, 0x2d]),
+    ("caret", [0x5e, 0x5f, 0x60, 97, 98, 0x7e, 0x7c]), ("metaext", [ord(c) for c in "(+|.a"] + [0xff9e, 0x1f3fd, 0xd4e, 0x5c]), ("dollar", [0x24, 0x25, 0x26, 0x23, 0x5d, 0x5b, 0x2d]),
 ]
 
 FLAGS = ['d', 'D', 's', 'S', 'w', 'W', 'r', 'i', 'g', 'e', 'E', 'x', 'c', 'ns', 'ne']
